@@ -148,6 +148,9 @@ def loopFlags (cfg : Cfg) (lm : LM St) (tables : Array Table) (margin : Option R
         | some s => some s
         | none => if elemDone cfg t e then some S else none
       let fl' : Traj := { fl1 with frozen := fr }
+      -- a row the model needs is not in the table: nothing it computes from here on means anything (and a
+      -- search without step limit would run on all-`-inf` rows for ever)
+      if fl'.nMissing != 0 then (Except.error "missing", fl', t) else
       match stepBatch selDet cfg lm (0, []) t S Kp elems with
       | .error e => (Except.error e, fl', t)
       | .ok (S', elems') => loopFlags cfg lm tables margin fuel (t + 1) S' cfg.width elems' fl' 0
@@ -187,6 +190,22 @@ def c04Search : Handler := fun c => do
       let inits : List St := (List.range tables.length).map fun n => (n, [])
       let (res, fl, steps) := loopFlags cfg lm tables.toArray margin fuel 0 0 1 (inits.map initElem)
         ({ frozen := inits.map fun _ => none } : Traj) 0
+      let flagsJ := objJ [("tie", boolJ fl.tie), ("ninf_choice", boolJ fl.ninf), ("steps", natJ steps),
+          ("gap", optJ ratToJson fl.gap), ("sep", boolJ fl.sep),
+          ("frozen", listJ (optJ natJ) fl.frozen),
+          ("missing", listJ (fun (m : Nat × List Int) => objJ [("element", natJ m.1),
+            ("history", listJ intJ m.2)]) fl.missing),
+          ("n_missing", natJ fl.nMissing)]
+      let specs := tables.map (specOf V)
+      let chains := (queries.zip specs).map fun (qs, sp) => qs.map fun p => chain sp p
+      if fl.nMissing != 0 then
+        -- the table (built on demand) lacks a row the model needs: no model output, the oracle values of
+        -- the queried paths are still reported
+        pure (objJ [("model", objJ [("error", strJ "missing"), ("detail", strJ "table row missing")]),
+          ("spec", objJ [("chain", listJ (listJ scoreJ) chains), ("complete", Json.null),
+            ("eos", optJ intJ eos)]),
+          ("flags", flagsJ)])
+      else
       let direct := search selDet cfg lm (0, []) inits fuel
       let modelJ ← match res, direct with
         | .error e, .error e' =>
@@ -198,8 +217,6 @@ def c04Search : Handler := fun c => do
             pure (objJ [("S", natJ S), ("elems", listJ (fun sl => listJ slotJ sl) out)])
           else throw "internal: search and loopFlags disagree"
         | _, _ => throw "internal: search and loopFlags disagree (kind)"
-      let specs := tables.map (specOf V)
-      let chains := (queries.zip specs).map fun (qs, sp) => qs.map fun p => chain sp p
       let complete := match completeT with
         | none => Json.null
         | some T => listJ (fun sp =>
@@ -208,12 +225,7 @@ def c04Search : Handler := fun c => do
       pure (objJ [("model", modelJ),
         ("spec", objJ [("chain", listJ (listJ scoreJ) chains), ("complete", complete),
           ("eos", optJ intJ eos)]),
-        ("flags", objJ [("tie", boolJ fl.tie), ("ninf_choice", boolJ fl.ninf), ("steps", natJ steps),
-          ("gap", optJ ratToJson fl.gap), ("sep", boolJ fl.sep),
-          ("frozen", listJ (optJ natJ) fl.frozen),
-          ("missing", listJ (fun (m : Nat × List Int) => objJ [("element", natJ m.1),
-            ("history", listJ intJ m.2)]) fl.missing),
-          ("n_missing", natJ fl.nMissing)])])
+        ("flags", flagsJ)])
 
 /-- case: {V, width, S, lens_given, rows: [ {cols:[[..]..], lens:[..], scores:[..], logp:[[..]..]} ]} -/
 def c04Advance : Handler := fun c => do
